@@ -69,9 +69,17 @@ def rule_unit_variants(date):
     info = env.dag_info(date)
     existing = set(info["nodes"]) | set(functions) | set(TYPES_INPUT_VARIABLES)
     out = []
+    per_base = {}
+    for n in info["nodes"]:
+        m = _UNIT.match(n)
+        if m:
+            per_base[m.group("base")] = per_base.get(m.group("base"), 0) + 1
     for n in info["computed"]:
         m = _UNIT.match(n)
-        if m and n in functions:
+        # only quantities of which the DAG contains nothing but the rule itself: as soon as a derived
+        # sibling (another unit / an aggregate) is consumed somewhere, that sibling may legitimately be
+        # converted from the supplied column rather than from the rule (GEP 4 leaves this open)
+        if m and n in functions and per_base.get(m.group("base")) == 1:
             for u in "ymwd":
                 cand = f"{m.group('base')}{u}{m.group('g') or ''}"
                 if u != m.group("u") and cand not in existing:
@@ -145,7 +153,7 @@ def check(df, date, S, opts):
         base, base_error = None, e
     def _base(name):
         m = _UNIT.match(name)
-        return (m.group("base"), m.group("g") or "") if m else (name, "")
+        return m.group("base") if m else name  # the quantity, whatever unit / aggregation level
 
     # an extra column named like another unit of a rule is "unused" only as long as no *derived*
     # sibling of it (same quantity, third unit) is requested: that one may legitimately be
